@@ -25,7 +25,7 @@ func genCase(t *rapid.T) Case {
 	sc := world.Script{K: k}
 	sc.MaxAsync = rapid.SampledFrom([]int{0, 0, 1, 2, k, max(1, k-1)}).Draw(t, "maxasync")
 	n := rapid.IntRange(3, 40).Draw(t, "nsteps")
-	ops := []string{"publish", "publish", "announce", "announce", "announce", "sync", "hold", "open", "failannounce", "badannounce"}
+	ops := []string{"publish", "publish", "announce", "announce", "announce", "sync", "hold", "open", "failannounce", "badannounce", "entries", "rmhandler"}
 	for i := 0; i < n; i++ {
 		st := world.Step{Op: rapid.SampledFrom(ops).Draw(t, "op"), P: rapid.IntRange(0, k-1).Draw(t, "p"), N: rapid.IntRange(1, 3).Draw(t, "n")}
 		sc.Steps = append(sc.Steps, st)
@@ -104,94 +104,37 @@ func runCase(t *testing.T) func(Case) pbt.Result {
 				for i, ci := range p.Chain {
 					pos[ci.String()] = i
 				}
-				latest := e.S.Latest(p.ID)
-				lpos, okl := pos[latest.String()]
-				if !okl {
-					lpos = -1
+				// RemoveHandler drops the publisher's handler (locks, pending announcement, syncer) but not its
+				// latest-sync, so the observations before and after it are judged as one history
+				if len(e.Marks[pi]) > 0 {
+					kinds["handler-removed"]++
 				}
-				// I3: the last announced head is synced, or an error notification for it was delivered
-				if ann := e.Announced[pi]; len(ann) > 0 {
-					last := ann[len(ann)-1]
-					errEvent := false
-					for _, ev := range evs {
-						if ev.PeerID == p.ID && ev.Err != nil && ev.Cid == last {
-							errEvent = true
-						}
-					}
-					if lpos < pos[last.String()] && !errEvent {
-						viol = fmt.Sprintf("publisher %d: the last announced head (position %d) was never synced (latest-sync at position %d) and no error notification for it was delivered; announced positions %v", pi, pos[last.String()], lpos, positions(ann, pos))
-						return
-					}
-				}
-				// I4: every advertisement up to latest-sync was reported exactly once, none beyond
-				count := map[int]int{}
-				var seq []int
-				for _, hc := range e.S.Hooks {
-					if hc.Peer != p.ID {
-						continue
-					}
-					i, ok := pos[hc.Cid.String()]
-					if !ok {
-						viol = fmt.Sprintf("publisher %d: hook called for a block that is not on its chain", pi)
-						return
-					}
-					count[i]++
-					seq = append(seq, i)
-				}
-				exactlyOnce := !(overlapExplicit[pi] && !known)
-				_ = exactlyOnce
-				for i := 0; i <= lpos; i++ {
-					if count[i] != 1 {
-						viol = fmt.Sprintf("publisher %d: advertisement at position %d was reported %d times (latest-sync at %d); hook order %v", pi, i, count[i], lpos, seq)
-						return
-					}
-				}
-				for i := range count {
-					if i > lpos {
-						viol = fmt.Sprintf("publisher %d: advertisement at position %d was reported but latest-sync is at %d; hook order %v", pi, i, lpos, seq)
-						return
-					}
-				}
-				// I1: hook calls of different syncs never interleave: the sequence is a concatenation of descending runs
-				for i := 1; i < len(seq); i++ {
-					if seq[i] != seq[i-1]-1 && !(seq[i] > seq[i-1]) {
-						viol = fmt.Sprintf("publisher %d: hook order %v is not a concatenation of newest-to-oldest runs", pi, seq)
-						return
-					}
-				}
-				// notifications: per publisher in completion order, counts add up
-				total, lastPos := 0, -1
-				nEv := 0
-				for _, ev := range evs {
-					if ev.PeerID != p.ID {
-						continue
-					}
-					nEv++
-					if ev.Err != nil {
-						continue
-					}
-					ep := pos[ev.Cid.String()]
-					if ep <= lastPos {
-						viol = fmt.Sprintf("publisher %d: success notifications out of order (position %d after %d)", pi, ep, lastPos)
-						return
-					}
-					if ev.Count != ep-lastPos {
-						viol = fmt.Sprintf("publisher %d: notification for position %d reports %d blocks, %d were synced since position %d", pi, ep, ev.Count, ep-lastPos, lastPos)
-						return
-					}
-					lastPos = ep
-					total += ev.Count
-				}
-				// I5: coalescing: never more handled syncs than announcements + explicit syncs
-				nSync := 0
-				for _, o := range e.Ops {
-					if o.P == pi && o.Kind == "sync" {
-						nSync++
-					}
-				}
-				if nEv > len(e.Announced[pi])+nSync {
-					viol = fmt.Sprintf("publisher %d: %d notifications for %d announcements and %d explicit syncs", pi, nEv, len(e.Announced[pi]), nSync)
+				final := world.Mark{Hooks: len(e.S.Hooks), Events: len(evs), Announced: len(e.Announced[pi]), Ops: len(e.Ops), Latest: e.S.Latest(p.ID)}
+				if v := checkEpoch(e, pi, p, pos, world.Mark{}, final, evs); v != "" {
+					viol = fmt.Sprintf("publisher %d: %s", pi, v)
 					return
+				}
+			}
+			// entries syncs: the scoped hook of each received exactly its own chain, newest to oldest
+			for _, o := range e.Ops {
+				if o.Kind != "entries" || !o.Done() {
+					continue
+				}
+				kinds["entries-sync"]++
+				want := make([]cid.Cid, 0, len(o.Ent))
+				for i := len(o.Ent) - 1; i >= 0; i-- {
+					want = append(want, o.Ent[i])
+				}
+				got := o.Scoped()
+				if o.Err == nil && len(got) != len(want) {
+					viol = fmt.Sprintf("entries sync of publisher %d issued at step %d succeeded, its scoped hook was called %d times for a chain of %d chunks", o.P, o.Step, len(got), len(want))
+					return
+				}
+				for i, g := range got {
+					if i >= len(want) || g != want[i] {
+						viol = fmt.Sprintf("entries sync of publisher %d issued at step %d: call %d of its scoped hook is for block %s, which is not the next chunk of its own chain (a block of another sync)", o.P, o.Step, i, g)
+						return
+					}
 				}
 			}
 		})
@@ -212,6 +155,89 @@ func runCase(t *testing.T) func(Case) pbt.Result {
 		}
 		return res
 	}
+}
+
+// checkEpoch judges one publisher's observations between two RemoveHandler points (or the start / the end).
+func checkEpoch(e *world.Exec, pi int, p *world.Publisher, pos map[string]int, from, to world.Mark, evs []dagsync.SyncFinished) string {
+	lpos, okl := pos[to.Latest.String()]
+	if !okl {
+		lpos = -1
+	}
+	evs = evs[from.Events:to.Events]
+	ann := e.Announced[pi][from.Announced:to.Announced]
+	// I3: the last announced head is synced, or an error notification for it was delivered
+	if len(ann) > 0 {
+		last := ann[len(ann)-1]
+		errEvent := false
+		for _, ev := range evs {
+			if ev.PeerID == p.ID && ev.Err != nil && ev.Cid == last {
+				errEvent = true
+			}
+		}
+		if lpos < pos[last.String()] && !errEvent {
+			return fmt.Sprintf("the last announced head (position %d) was never synced (latest-sync at position %d) and no error notification for it was delivered; announced positions %v", pos[last.String()], lpos, positions(ann, pos))
+		}
+	}
+	// I4: every advertisement up to latest-sync was reported exactly once, none beyond
+	count := map[int]int{}
+	var seq []int
+	for _, hc := range e.S.Hooks[from.Hooks:to.Hooks] {
+		if hc.Peer != p.ID {
+			continue
+		}
+		i, ok := pos[hc.Cid.String()]
+		if !ok {
+			return "the subscriber's general hook was called for a block that is not an advertisement of its chain (a block of an entries sync that has its own scoped hook)"
+		}
+		count[i]++
+		seq = append(seq, i)
+	}
+	for i := 0; i <= lpos; i++ {
+		if count[i] != 1 {
+			return fmt.Sprintf("advertisement at position %d was reported %d times (latest-sync at %d); hook order %v", i, count[i], lpos, seq)
+		}
+	}
+	for i := range count {
+		if i > lpos {
+			return fmt.Sprintf("advertisement at position %d was reported but latest-sync is at %d; hook order %v", i, lpos, seq)
+		}
+	}
+	// I1: hook calls of different syncs never interleave: the sequence is a concatenation of descending runs
+	for i := 1; i < len(seq); i++ {
+		if seq[i] != seq[i-1]-1 && !(seq[i] > seq[i-1]) {
+			return fmt.Sprintf("hook order %v is not a concatenation of newest-to-oldest runs", seq)
+		}
+	}
+	// notifications: per publisher in completion order, counts add up
+	lastPos, nEv := -1, 0
+	for _, ev := range evs {
+		if ev.PeerID != p.ID {
+			continue
+		}
+		nEv++
+		if ev.Err != nil {
+			continue
+		}
+		ep := pos[ev.Cid.String()]
+		if ep <= lastPos {
+			return fmt.Sprintf("success notifications out of order (position %d after %d)", ep, lastPos)
+		}
+		if ev.Count != ep-lastPos {
+			return fmt.Sprintf("notification for position %d reports %d blocks, %d were synced since position %d", ep, ev.Count, ep-lastPos, lastPos)
+		}
+		lastPos = ep
+	}
+	// I5: coalescing: never more handled syncs than announcements + explicit syncs
+	nSync := 0
+	for _, o := range e.Ops[from.Ops:to.Ops] {
+		if o.P == pi && o.Kind == "sync" {
+			nSync++
+		}
+	}
+	if nEv > len(ann)+nSync {
+		return fmt.Sprintf("%d notifications for %d announcements and %d explicit syncs", nEv, len(ann), nSync)
+	}
+	return ""
 }
 
 func positions(cs []cid.Cid, pos map[string]int) []int {
@@ -238,7 +264,7 @@ func render(c Case) string {
 
 func TestC08_Scripts(t *testing.T) {
 	pbt.Run(t, pbt.Config{Prop: "C08", Unit: "TestC08_Scripts", TrackCurrent: true,
-		Rule: "scripts of 3..40 steps over 1..3 publishers and one real subscriber (MaxAsyncConcurrency unlimited, 1, 2, k-1, k): publish 1..3 ads, announce the current head (in chain order), announce a head whose first block request fails, announce the head with sender information no sync can use (only a non-HTTP address), explicit sync, hold / open a publisher's gate (block requests park), so that announcement bursts arrive while a sync of the same publisher is held; after every step: at most one block request in flight per publisher, concurrently busy publishers <= the configured maximum; at exact quiescence with all gates open: every publisher's latest-sync is at or after its last announced head or an error notification for that head was delivered; every advertisement up to latest-sync was reported exactly once and none beyond; hook calls form whole newest-to-oldest runs; success notifications are in order with counts that add up; never more syncs handled than announcements + explicit syncs. Non-trivial: an announcement arrived while a sync of the same publisher was held, an explicit sync overlapped another sync, or the semaphore was saturated; distinct by case.",
+		Rule: "scripts of 3..40 steps over 1..3 publishers and one real subscriber (MaxAsyncConcurrency unlimited, 1, 2, k-1, k): publish 1..3 ads, announce the current head (in chain order), announce a head whose first block request fails, announce the head with sender information no sync can use (only a non-HTTP address), explicit sync, explicit sync of a fresh entries chain of 1..3 chunks with its own scoped hook, RemoveHandler of a publisher that is certainly idle (its handler with locks and pending state is dropped, latest-sync is kept), hold / open a publisher's gate (block requests park), so that announcement bursts arrive while a sync of the same publisher is held; after every step: at most one block request in flight per publisher, concurrently busy publishers <= the configured maximum; at exact quiescence with all gates open: every publisher's latest-sync is at or after its last announced head or an error notification for that head was delivered; every advertisement up to latest-sync was reported exactly once and none beyond; hook calls form whole newest-to-oldest runs; success notifications are in order with counts that add up; never more syncs handled than announcements + explicit syncs; each entries sync's scoped hook received exactly its own chunks, newest to oldest, and the general hook none of them. Non-trivial: an announcement arrived while a sync of the same publisher was held, an explicit sync overlapped another sync, or the semaphore was saturated; distinct by case.",
 		Assumptions: []string{"announcements per publisher follow chain order (documented caller obligation); arrival timing varies", "while a gate-held sync coexists with goroutines waiting on a library mutex the harness settles heuristically (1 ms of stable activity); only 'nothing bad has happened' is asserted then, every 'has happened' assertion waits for exact quiescence"},
 	}, genCase, runCase(t))
 }
